@@ -146,7 +146,7 @@ let show_kind = function
   | KMissingType -> "mt" | KUnknownType -> "ut" | KIllegal -> "il" | KValue -> "val" | KDup -> "dup"
   | KMissingReq -> "mr" | KMissingCT -> "ct" | KConcurrent -> "na"
   | KSyntax -> "syn" | KLength -> "len" | KDigest -> "dig" | KTrailer -> "trl" | KBlock -> "blk"
-  | KVersion -> "ver" | KOffset -> "off"
+  | KVersion -> "ver" | KOffset -> "off" | KEOH -> "eoh" | KMarker -> "mrk" | KRead -> "read" | KFuel -> "FUEL" | KOther -> "other"
 let show_findings fs = String.concat "," (List.map (fun (k, _) -> show_kind k) fs)
 let run_validate t : string * string =
   let spec = next_int t in let unk = next_int t in let vid = next_int t in let k = next_int t in
@@ -167,7 +167,7 @@ let run_validate t : string * string =
 let mime_dec (s : n list) : n list option =
   let a = ask ("mime " ^ hex s) in if a = "err" then None else Some (unhex a)
 let show_kind_err k = match k with
-  | KSyntax -> "syn" | KEOH -> "eoh" | KMarker -> "mrk" | KRead -> "read" | KFuel -> "FUEL" | k -> show_kind k
+  | KSyntax -> "syn" | KEOH -> "eoh" | KMarker -> "mrk" | KRead -> "read" | KFuel -> "FUEL" | KOther -> "other" | k -> show_kind k
 let show_parse total r =
   match r with
   | Ok ((fs, rest), fnd) ->
@@ -227,6 +227,43 @@ let run_block t : string * string =
   (show (block_run f f (fresh head body cached) ops),
    show (spec_run f f { s_head = head; s_body = body; s_cached = cached; s_used = false } ops))
 
+
+(* ---------- record level: options, observations ---------- *)
+let http_ok kind (s : n list) : bool = ask (kind ^ " " ^ hex s) = "1"
+let read_opts t : opts * int (* vid *) * int (* thr *) =
+  let syntax = policy_of_int (next_int t) in let spec = policy_of_int (next_int t) in
+  let unknown = policy_of_int (next_int t) in let block = policy_of_int (next_int t) in
+  let skip = next_int t = 1 in
+  let addid = next_int t = 1 in let addcl = next_int t = 1 in let adddig = next_int t = 1 in
+  let fixcl = next_int t = 1 in let fixdig = next_int t = 1 in let fixsyn = next_int t = 1 in let fixwf = next_int t = 1 in
+  let alg = bytes_of_str (next t) in let e = enc_of_int (next_int t) in
+  let vid = next_int t in let thr = next_int t in
+  ({ o_syntax = syntax; o_spec = spec; o_unknown = unknown; o_block = block; o_skip_parse = skip;
+     o_add_id = addid; o_add_cl = addcl; o_add_digest = adddig; o_fix_cl = fixcl; o_fix_digest = fixdig;
+     o_fix_syntax = fixsyn; o_fix_wfblock = fixwf; o_alg = alg; o_enc = e }, vid, thr)
+let show_bkind = function BGeneric -> "g" | BHttpReq -> "q" | BHttpResp -> "s" | BWarcFields -> "w" | BRevisit -> "v"
+let show_kinds fs = String.concat "," (List.map (fun (k, _) -> show_kind_err k) fs)
+let show_rec (r : record) fnd =
+  Printf.sprintf "v=%s;t=%d;f=%s;h=%s;b=%s;k=%s" (hex r.r_vtxt) (int_of_n r.r_type) (show_kinds fnd)
+    (hex (m_write r.r_fields)) (hex (raw_bytes r.r_block)) (show_bkind r.r_block.bk)
+let m_build o vid rt hs content id =
+  build field_table required_fields uni_lower uni_upper time_ok ip_ok uri_ok wid_ok mime_dec hash_oracle b32dec b64dec
+    (http_ok "httpreq") (http_ok "httpresp") o vid rt hs content id
+let run_build t : string * string =
+  let (o, vid, _thr) = read_opts t in
+  let rt = next_int t in let nf = next_int t in
+  let hs = List.fold_left (fun acc _ -> let n = next_hex t in let v = next_hex t in m_add field_table uni_lower n v acc) [] (List.init nf (fun i -> i)) in
+  (* NewRecordBuilder sets WARC-Type first *)
+  let hs0 = if rt <> 0 then m_set field_table uni_lower (bytes_of_str "WARC-Type") (bytes_of_str (match rt with 1 -> "warcinfo" | 2 -> "response" | 4 -> "resource" | 8 -> "request" | 16 -> "metadata" | 32 -> "revisit" | 64 -> "conversion" | 128 -> "continuation" | _ -> "unknown")) [] else [] in
+  let hs = hs0 @ hs in
+  let nfe = next_int t in
+  let content = List.concat (List.init nfe (fun _ -> let _ = next t in next_hex t)) in
+  let (r, _) = m_build o (n_of_int vid) (n_of_int rt) hs content (bytes_of_str "urn:uuid:11111111-2222-3333-4444-555555555555") in
+  let m = match r with
+    | Ok (rc, fnd) -> "ok;" ^ show_rec rc fnd
+    | Err ((k, _), fnd) -> Printf.sprintf "err:%s;f=%s" (show_kind_err k) (show_kinds fnd) in
+  (m, "-")
+
 (* ---------- main ---------- *)
 let run_line (line : string) : string * string =
   let t = { rest = List.filter (fun s -> s <> "") (String.split_on_char ' ' line) } in
@@ -237,6 +274,7 @@ let run_line (line : string) : string * string =
   | "hparse" -> run_hparse t
   | "hapi" -> run_hapi t
   | "block" -> run_block t
+  | "build" -> run_build t
   | d -> failwith ("unknown domain " ^ d)
 
 let () =
